@@ -119,8 +119,12 @@ def check_andor(case, ctx):
         d_star = t[N_ - k - 1]  # pe(d) <= alpha  iff  d >= d_star
         if not (math.isfinite(d_star) and d_star >= 0.15 * M and d_star <= 3 * M):
             return False
-        if len(np.unique(t[max(N_ - k - 3, 0) : N_ - k + 2])) < min(5, N_):
-            return False  # ties next to the crossing: levels are skipped
+        win = t[max(N_ - k - 3, 0) : N_ - k + 2]
+        if len(win) < min(5, N_) or np.any(np.diff(win) <= 1e-9 * max(abs(d_star), 1e-300)):
+            # ties next to the crossing: levels are skipped.  Near-ties count as ties: on the 45 degree ray rounded
+            # data (12.6, 13.0) and (13.1, 12.6) give x/cos and y/sin one ulp apart - a level of width 1 ulp that no
+            # search can land in
+            return False
         lv_below = k / N_
         lv_above = (k + 1) / N_
         return abs(lv_below - alpha) <= tol_pe * (1 - 1e-9) or abs(lv_above - alpha) <= tol_pe * (1 - 1e-9)
